@@ -10,7 +10,7 @@ package trans
 // positions and debug columns carried over), and nothing that existed before
 // the call is written (the original tree is left untouched).
 //@ func Desugar
-//@   props C10 C06 C19
+//@   props C10 C06 C19 C13
 //@   requires wfAst(expr)
 //@   unfold wfAst(expr)
 //@   unfold wfAst(calleeOf(expr))
